@@ -96,6 +96,7 @@ func init() {
 		rtPkg + "Symbolic": func(fr *frame, a []value) value { return !fr.i.m.isConcrete },
 		rtPkg + "Yield":    func(fr *frame, a []value) value { fr.i.m.yield("Yield"); return nil },
 		rtPkg + "Jitter":   func(fr *frame, a []value) value { return nil },
+		rtPkg + "Stress":   func(fr *frame, a []value) value { return a[0] },
 
 		// --- logging / printing: no-ops; log.Panic* ≡ panic ---
 		"log.Print":    noop,
